@@ -709,6 +709,23 @@ def worker(arg):
                 note = "String/DynamicBytes.set(<bytes literal of >= 65536 bytes>) is rejected by algosdk's ABIEncodingError escaping from _encoded_byte_string, not by a PyTeal error"
                 if note not in out["notes"]:
                     out["notes"].append(note)
+    # 3g x.set(<instance of another type>) must be refused at construction (a silent acceptance would truncate / mis-frame)
+    if shard == 2 % nshards:
+        u8, u16, u64 = ("uint", 8), ("uint", 16), ("uint", 64)
+        bad_copies = [(u16, u8), (u8, u16), (u64, u16), (u16, u64), ("bool", u8), (u8, "bool"), ("byte", u16), ("string", "address"),
+                      ("address", "string"), ("dynbytes", "string"), ("string", ("darr", u8)), ("address", ("sarr", "byte", 31)),
+                      (("sbytes", 3), ("sbytes", 4)), (("sarr", u8, 2), ("sarr", u8, 3)), (("sarr", u8, 2), ("darr", u8)),
+                      (("darr", u8), ("darr", "byte")), (("darr", u16), ("darr", u8)), (("tuple", u8), ("tuple", u8)),
+                      (("tuple", u8, "bool"), ("tuple", u8, "bool")), (("tuple", ("tuple", u8), "bool"), ("tuple", u8))]
+        for (ta, tb) in bad_copies:
+            x, y = AB.to_pyteal(ta).new_instance(), AB.to_pyteal(tb).new_instance()
+            rr = call_real(lambda: x.set(y))
+            out["evaluations"] += 1
+            out["keys"].append("badcopy:%r<-%r" % (ta, tb))
+            bump(out, "bad-copy:" + ("rejected:" + rr[1] if rr[0] != "ok" else "ACCEPTED"))
+            if rr[0] == "ok" or rr[1] not in PYTEAL_ERRORS:
+                out["sem"].append({"kind": "type-mismatch-not-refused", "type": AB.arc4_str(ta), "t_json": ta, "source_type": AB.arc4_str(tb),
+                                   "expected": "PyTeal error at construction", "real": "accepted" if rr[0] == "ok" else list(rr[1:])})
     out["hist"]["shard_s:%02d" % shard] = round(time.time() - t_start, 1)
     out["hist"]["phase_s:descr"] = round(t_descr - t_start, 1)
     out["hist"]["phase_s:behaviour"] = round(time.time() - t_descr, 1)
